@@ -109,8 +109,21 @@ def _data_case(run, ef, case, data, brief, ELFCompressionError):
             if sec.data() != d:
                 bad('data.repeat' + tag, 'same bytes twice', 'differs')
     observe(sec)
+    # a second section with the same name and a different payload must give its own bytes (in both orders of access)
+    if case['twin']:
+        twin = ef.get_section(case['secidx'] + 1)
+        d2 = twin.data()
+        if d2 != bytes(case['twin']):
+            bad('data.same_name_twin', {'len': len(case['twin']), 'head': list(case['twin'][:8])}, {'len': len(d2), 'head': list(d2[:8])})
+        ef3 = ELFFile(io.BytesIO(data))
+        if ef3.get_section(case['secidx'] + 1).data() != bytes(case['twin']) or ef3.get_section(case['secidx']).data() != payload:
+            bad('data.same_name_twin.reverse', 'own bytes', 'other bytes')
     # segments: the loadable one covers exactly the section's file bytes; the interpreter path
     segs = list(ef.iter_segments())
+    for j, want in enumerate(case['inseg']):
+        got = bool(segs[2 + j].section_in_segment(sec))
+        if got != bool(want):
+            bad('section_in_segment.data', bool(want), got)
     if segs[0].data() != bytes(case['segdata']):
         bad('segment.data', len(case['segdata']), len(segs[0].data()))
     name = segs[1].get_interp_name()
